@@ -112,7 +112,7 @@ func NewHubWithConfig(config *Config) *Hub {
 		connections:       make(map[*Connection]bool),
 		handleMessage:     make(chan *MessageContext, 256),
 		register:          make(chan *Connection),
-		unregister:        make(chan *Connection),
+		unregister:        make(chan *Connection, 256), // buffered: Close() may be called from a message handler, i.e. on the hub goroutine itself
 		broadcast:         make(chan []byte, 256),
 		broadcastToRoom:   make(chan *RoomMessage, 256),
 		joinRoom:          make(chan *RoomAction, 256),
